@@ -59,8 +59,9 @@ def main():
     only = sys.argv[3:] or None
     jobs = []
     for pid in sorted(os.listdir(SRC)):
-        for n in (1, 2):
-            jobs.append((pid, n))
+        for n in (1, 2, 3, 4):
+            if n <= 2 or os.path.exists(os.path.join(SRC, pid, f"patch{n}.diff")):
+                jobs.append((pid, n))
     jobs = [j for i, j in enumerate(jobs) if i % nw == w]
     wt = f"/tmp/cs-worker{w}"
     subprocess.run(["git", "-C", "/repo", "worktree", "remove", "--force", wt], capture_output=True)
